@@ -25,11 +25,19 @@ import (
 )
 
 const (
-	verifDir  = "/verif"
-	tlaJar    = "/opt/veriftools/tla/tla2tools.jar"
-	commJar   = "/opt/veriftools/tla/CommunityModules-deps.jar"
-	overrides = verifDir + "/.build/overrides"
+	tlaJar  = "/opt/veriftools/tla/tla2tools.jar"
+	commJar = "/opt/veriftools/tla/CommunityModules-deps.jar"
 )
+
+// verifDir is the root of the verification tree (exported by ./check as VERIF_DIR).
+var verifDir = func() string {
+	if d := os.Getenv("VERIF_DIR"); d != "" {
+		return d
+	}
+	return "/verif"
+}()
+
+var overrides = verifDir + "/.build/overrides"
 
 type Finding struct {
 	Property string `json:"property"`
